@@ -167,6 +167,12 @@ def run_steps(W, cfg):
                 W.require(S._discard_exploration is discard or
                           S._discard_exploration == discard,
                           'C12:discard-as-requested', '')
+            if S._discard_exploration and len(S.shell_end_exp) == B:
+                # the view shows exactly the samples drawn after the cut
+                for i in range(B):
+                    cut = W.concrete_int(S.shell_end_exp[i])
+                    W.require(S.shell_n[i] == len(S.points[i]) - cut,
+                              'C12:discard-view-after-run', 'shell %d' % i)
 
     if 'C01' in props:
         st.check_c01(W, S, tag='-after-run')
